@@ -302,6 +302,33 @@ fn arb_entries() -> BoxedStrategy<Vec<(String, RefValue)>> {
 	prop_oneof![6 => proptest::collection::vec((gen::arb_key(true), gen::arb_value(gen::ValueCfg::SMALL)), 0..14), 1 => proptest::collection::vec((gen::arb_long_key(), gen::arb_leaf(false)), 14..80)].boxed()
 }
 
+/// M_mixed_size_triples on one case.
+pub fn mixed_size_case(prefix: &usize, as_array: &bool, specs: &[(u8, usize, u8)]) -> Outcome {
+
+	let pool = [RefValue::num("0"), RefValue::num("1"), RefValue::num("2"), RefValue::str("x")];
+	let mk = |(pick, size, fill): &(u8, usize, u8)| -> RefValue {
+		let mut es: Vec<(String, RefValue)> = (0..*prefix).map(|i| (format!("p{i}"), RefValue::Null)).collect();
+		es.push(("d".to_string(), pool[*pick as usize].clone()));
+		for i in 0..*size {
+			es.push((format!("f{}", if *fill == 0 { i } else { i % (*fill as usize + 1) }), RefValue::Num((i % 3).to_string())));
+		}
+		if *as_array {
+			RefValue::Arr(es.into_iter().map(|(_, v)| v).collect())
+		} else {
+			RefValue::Obj(es)
+		}
+	};
+	let t = [mk(&specs[0]), mk(&specs[1]), mk(&specs[2])];
+	match laws_property(&t) {
+		Ok(_) => {
+			let class = |s: usize| if s < 4 { 0 } else if s < 40 { 1 } else if s < 80 { 2 } else { 3 };
+			let cs: std::collections::BTreeSet<usize> = specs.iter().map(|s| class(s.1)).collect();
+			Outcome::ok(cs.len() >= 2 && specs.iter().any(|s| s.1 >= 60), vec![])
+		}
+		Err(m) => Outcome::fail(m),
+	}
+			}
+
 pub fn run(ctx: &mut Ctx) {
 	if ctx.wants("L_laws_on_triples") {
 		let n = ctx.pick(100_000, 1_500_000);
@@ -355,30 +382,7 @@ pub fn run(ctx: &mut Ctx) {
 				let size = prop_oneof![2 => 0usize..4, 1 => 28usize..36, 2 => 60usize..70, 1 => 100usize..140];
 				(0usize..3, any::<bool>(), proptest::collection::vec((0u8..4, size, 0u8..3), 3))
 			},
-			|(prefix, as_array, specs)| {
-				let pool = [RefValue::num("0"), RefValue::num("1"), RefValue::num("2"), RefValue::str("x")];
-				let mk = |(pick, size, fill): &(u8, usize, u8)| -> RefValue {
-					let mut es: Vec<(String, RefValue)> = (0..*prefix).map(|i| (format!("p{i}"), RefValue::Null)).collect();
-					es.push(("d".to_string(), pool[*pick as usize].clone()));
-					for i in 0..*size {
-						es.push((format!("f{}", if *fill == 0 { i } else { i % (*fill as usize + 1) }), RefValue::Num((i % 3).to_string())));
-					}
-					if *as_array {
-						RefValue::Arr(es.into_iter().map(|(_, v)| v).collect())
-					} else {
-						RefValue::Obj(es)
-					}
-				};
-				let t = [mk(&specs[0]), mk(&specs[1]), mk(&specs[2])];
-				match laws_property(&t) {
-					Ok(_) => {
-						let class = |s: usize| if s < 4 { 0 } else if s < 40 { 1 } else if s < 80 { 2 } else { 3 };
-						let cs: std::collections::BTreeSet<usize> = specs.iter().map(|s| class(s.1)).collect();
-						Outcome::ok(cs.len() >= 2 && specs.iter().any(|s| s.1 >= 60), vec![])
-					}
-					Err(m) => Outcome::fail(m),
-				}
-			},
+			|(prefix, as_array, specs)| mixed_size_case(prefix, as_array, specs),
 			|(prefix, as_array, specs)| json!({"prefix": prefix, "as_array": as_array, "specs": specs.iter().map(|s| json!([s.0, s.1, s.2])).collect::<Vec<_>>()}),
 		);
 		ctx.add(fam);
@@ -433,7 +437,11 @@ pub fn run(ctx: &mut Ctx) {
 
 pub fn replay(family: &str, case: &J) -> Result<(), String> {
 	if family == "M_mixed_size_triples" {
-		return Err("recorded for reading; re-run the family with the same VERIF_SEED to reproduce".into());
+		let specs: Vec<(u8, usize, u8)> = case["specs"].as_array().ok_or("bad case")?.iter().map(|e| (e[0].as_u64().unwrap() as u8, e[1].as_u64().unwrap() as usize, e[2].as_u64().unwrap() as u8)).collect();
+		return match mixed_size_case(&(case["prefix"].as_u64().unwrap() as usize), &case["as_array"].as_bool().unwrap(), &specs).verdict {
+			Ok(()) => Ok(()),
+			Err((m, _)) => Err(m),
+		};
 	}
 	if family == "R_construction_routes" {
 		let entries = match RefValue::decode(&case["entries"]) {
